@@ -55,18 +55,20 @@ def do_verify(ids):
         add = f"{d}/cargo_toml_addition.txt"
         if os.path.exists(add):
             open(f"{SCR}/Cargo.toml", "a").write("\n" + open(add).read() + "\n")
-        r1 = sh("cargo test --offline --test seed_demo", cwd=SCR, env=env)
+        feat = m.get("demo_features", "")
+        fl = f" --features {feat}" if feat else ""
+        r1 = sh("cargo test --offline --test seed_demo" + fl, cwd=SCR, env=env)
         d1 = tests_summary(r1.stdout)
         # demo without the change
         sh(f"git apply -R {d}/patch.diff", cwd=SCR)
-        r2 = sh("cargo test --offline --test seed_demo", cwd=SCR, env=env)
+        r2 = sh("cargo test --offline --test seed_demo" + fl, cwd=SCR, env=env)
         d2 = tests_summary(r2.stdout)
         ok = (p == 61 and f == 0 and builds_tracing and (d1[1] > 0 or r1.returncode != 0) and d2[1] == 0 and r2.returncode == 0)
         m["verified"] = {"ok": ok, "suite_with_change": {"passed": p, "failed": f}, "builds_with_tracing": builds_tracing,
                          "demo_with_change": {"passed": d1[0], "failed": d1[1], "exit": r1.returncode},
                          "demo_without_change": {"passed": d2[0], "failed": d2[1], "exit": r2.returncode},
                          "commands": ["git apply patch.diff", "cargo test --workspace --no-fail-fast --offline", "cargo build --offline --features tracing",
-                                      "cp seed_demo.rs tests/ && cargo test --offline --test seed_demo", "git apply -R patch.diff && cargo test --offline --test seed_demo"]}
+                                      "cp seed_demo.rs tests/ && cargo test --offline --test seed_demo" + fl, "git apply -R patch.diff && cargo test --offline --test seed_demo" + fl]}
         save(i, m)
         print(i, "VERIFIED" if ok else "NOT VERIFIED", m["verified"]["suite_with_change"], d1, d2, flush=True)
         sh("git checkout -- . && git clean -fdq tests", cwd=SCR)
